@@ -333,6 +333,9 @@ func (r *run) doStep(s step) {
 		x.Count("kind-ok:" + s.Kind)
 		if res != nil {
 			x.Count(fmt.Sprintf("state:%d", res.State))
+			if isEip(s.Kind) {
+				x.Count(fmt.Sprintf("evm-state:%s:%d", s.Kind, res.State))
+			}
 		}
 	}
 	same := r.check(before, after, in, s.Kind+" via "+s.Entry)
